@@ -1,1 +1,3 @@
 // independent encoders
+pub mod zipw;
+pub mod xlsx;
